@@ -54,7 +54,13 @@ func NewWaiter(d Diode, opts ...WaiterConfigOption) *Waiter {
 // to wake up any readers.
 func (w *Waiter) Set(data GenericDataType) {
 	w.Diode.Set(data)
+
+	// The mutex closes the same race as in NewWaiter: without it the Broadcast
+	// can fall between the reader's failed TryNext() and its w.c.Wait(), and the
+	// reader then sleeps although data is available.
+	w.mu.Lock()
 	w.c.Broadcast()
+	w.mu.Unlock()
 }
 
 // Next returns the next data point on the wrapped diode. If there is not any
